@@ -60,7 +60,7 @@ def correspond(ctx):
     for r_ in [x for x in tcases if x["k"] == "run"]:
         if not r_["success"]:
             c.mismatches.append({"kind": "traced-run-failed", "run": r_})
-    allc = cases + [x for x in tcases if x["k"] in ("nmove", "mineral", "denit")]
+    allc = cases + [x for x in tcases if x["k"] in ("nmove", "mineral", "denit", "denitmo", "till")]
     nitrolib.eval_cases(ctx, c, allc)
     seen = set()
     for x in allc:
@@ -74,8 +74,11 @@ def correspond(ctx):
                 c.bump("nmove:drain-active" + ("-with-upward-flow" if neg else ""))
         elif x["k"] == "mineral":
             seen.add(("m", tuple(map(tuple, x["layers"]))))
+        elif x["k"] == "till":
+            seen.add(("t", x["pre"]["eint"], tuple(x["pre"]["nfos"])))
+            c.bump("tillage:depth=%g" % float.fromhex(x["pre"]["eint"]))
         else:
-            seen.add(("d", tuple(x["in"]["c1"]), x["in"]["fth"]))
+            seen.add(("d", tuple(x["in"]["c1"]), str(x["in"]["fth"])))
     c.nontrivial = len(seen)
     days = [x for x in tcases if x["k"] == "nday"]
     ctx.extra["traced_days_n_budget"] = len(days)
@@ -86,7 +89,7 @@ def correspond(ctx):
 
 
 ORACLE_KEYS = ("transport-balance", "transport-removes-n", "instability-flag", "n-balance-loss", "n-balance-gain",
-               "deposition", "irrigation-n", "denit-removes-more-than-counted")
+               "deposition", "irrigation-n", "denit-removes-more-than-counted", "denit-balance")
 
 
 def oracle(ctx, search):
